@@ -8,7 +8,7 @@
    no_collision : executable hypothesis - line hashes are injective over everything registered or
                 executing, registered code objects have distinct bytecode hashes *)
 From Coq Require Import List ZArith Bool.
-From LP Require Import Trace.ZMap Trace.Concrete Trace.Abstract Trace.AbstractFacts Trace.Main Trace.Witness Trace.Stats Trace.Report.
+From LP Require Import Trace.GenRun Trace.ZMap Trace.Concrete Trace.Abstract Trace.AbstractFacts Trace.Main Trace.Witness Trace.Stats Trace.Report.
 Import ListNotations.
 Open Scope Z_scope.
 
@@ -62,3 +62,10 @@ Theorem C01_report_shows_reported :
     In (c_lbl (nth_code codes c), ents) (get_stats codes (run codes tick 0 ops)) -> In (l, h, t) ents ->
     h = reported_hits (run codes tick 0 ops) c l /\ t = reported_time (run codes tick 0 ops) c l.
 Proof. exact snapshot_shows_reported. Qed.
+
+(* The tie to the source: the machine regenerated from line_profiler/_line_profiler.pyx on this run (Gen/TraceCore.v:
+   the trace callback translated statement by statement, compute_line_hash, enable/disable, the registration loop and
+   get_stats read off the source) computes exactly `run`, the model the theorems above are about. *)
+Theorem C01_model_is_generated_core :
+  forall codes tick start ops, gen_run codes tick start ops = run codes tick start ops.
+Proof. exact gen_run_eq. Qed.
